@@ -7,6 +7,7 @@ CONSTANTS
   MaxCommit = 5
   RankDir = 1
   WithRestart = FALSE
+  LoaderLess = FALSE
 INVARIANTS AllReadable CausalOrder NoDupOps Converged MergeTruthful ClockDominates QuiescentConverged
 PROPERTY ActionProps
 CHECK_DEADLOCK FALSE
